@@ -680,6 +680,7 @@ def run(chk):   # noqa
     _stackarg_rule(chk, prog, S)
     _cbstate_rule(chk, prog)
     _markpath_rule(chk, prog)
+    _markexit_rule(chk, prog)
     _stacklocal_rule(chk, prog, S)
     _rootcount_rule(chk, prog)
     _compilerlock_rule(chk, prog)
@@ -1153,6 +1154,64 @@ def _markpath_rule(chk, prog):
         else:
             chk.ok(rule, "%s: every return after the first field visit has passed all of {%s}" % (fn.name, ",".join(sorted(every))))
     chk.floor(rule, 4, n)
+
+
+def _markexit_rule(chk, prog):
+    """Setting an object's mark bit tells every later visit "already done".  A mark function of gc.c that returns
+    (explicit `return`) with the bit set before it has visited a single child, although it has child visits further
+    down, has declared the object done with none of its children visited (a shortcut for "empty" objects that forgets
+    the prototype link is the typical case)."""
+    rule = "C01-MARKEXIT"
+    chk.rule(rule, "a mark function of gc.c with child visits does not return between setting the object's mark bit and its first child visit")
+    tu = prog.tus["gc.c"]
+    n = 0
+    for fn in sorted(tu.funcs.values(), key=lambda f: f.name):
+        if not fn.name.startswith("janet_mark_"):
+            continue
+        sets = [x for x in fn.nodes if x.k == "asg" and x.op == "|=" and x.in_macro("janet_gc_mark")]
+        if not sets:
+            continue
+        subject = fn.params[0]["n"] if fn.params else None
+
+        def is_visit(x, subject=subject):
+            if x.k == "call" and x.callee and (x.callee.startswith("janet_mark") or x.callee in ("janet_gc_mark_abstract",)):
+                return True
+            if x.k == "call" and x.callee is None:
+                return True         # the abstract type's own gcmark hook
+            if x.k == "asg" and x.op == "=" and is_ref(x.kids[0]) and x.kids[0].name == subject:
+                return True         # manual tail recursion into the child
+            return False
+        if not any(is_visit(x) for x in fn.nodes):
+            continue
+        n += 1
+        chk.instance(rule)
+        chk.analysed(fn)
+        setids = set(x.id for x in sets)
+
+        def transfer(st, x, setids=setids, is_visit=is_visit):
+            if x.id in setids:
+                return frozenset(["marked"])
+            if is_visit(x):
+                return frozenset(["visited"]) if st else st
+            return st
+        IN, OUT, T = flow.forward_paths(fn, frozenset(), transfer, cap=64)
+        bad = None
+        for b, kind in flow.exits(fn):
+            if kind != "return" or b.id not in OUT:
+                continue
+            if not any(e.k == "return" for e in b.elems) and not (b.term is not None and b.term.k == "return"):
+                continue
+            if any("marked" in ps for ps in OUT[b.id]):
+                bad = b
+        if bad is not None:
+            last = bad.elems[-1] if bad.elems else fn
+            chk.violation(rule, "gc.c", fn.name, "return-after-mark", last.loc,
+                          "%s can return (near %s) right after setting the object's mark bit, before any child is visited, although "
+                          "it visits children further down: for such an object nothing it refers to (prototype, elements, environment) "
+                          "is ever marked, and the sweep frees it while the object still points at it" % (fn.name, last.loc))
+        else:
+            chk.ok(rule, "%s: no explicit return between the mark bit and the first child visit" % fn.name)
+    chk.floor(rule, 5, n)
 
 
 def _stacklocal_rule(chk, prog, S):
